@@ -11,8 +11,10 @@ Full statement (NOT proved; see the partial results and the counterexamples belo
   is `coherent` (definition below: every persistent object's identity key names a row of
   the session's connection, loaded non-dirty values equal that row, flushed-deleted objects
   have no row, identity keys are unique).
-What is proved: for ALL states, what a root rollback / a savepoint rollback / a commit do
-to rows, transaction stack, pending objects and loaded values; and that the statement is
+What is proved: the ROWS side for every history (`session_rows_invariant`,
+`session_end_states`: stack always well formed, no transaction ⇒ rows = committed rows,
+out-of-order handle operations included); for ALL states, what a root rollback / a savepoint
+rollback do to rows, transaction stack and loaded values; and that the OBJECT side is
 FALSE without the innermost-first restriction (F20), with a repeated key switch across a
 released savepoint (F21) and for added+key-switched objects (F23).  The unrestricted part is
 carried by the differential correspondence and the oracle of `harness/props/c33.py`.
@@ -276,6 +278,424 @@ theorem root_rollback_expires_all (s : Sess) (t : STx) (ht : s.txns = [t]) (hn :
     have := hexp o ho
     simpa [Sess.obj, p6] using this
 
+
+/-! ## rows and transaction stack: an invariant of EVERY history
+
+(out-of-order handle operations included — the rows side of the session never goes wrong;
+F20/F21/F23 are about the objects) -/
+
+def flags (s : Sess) : List Bool := s.txns.map (·.nested)
+
+/-- innermost first: savepoint transactions on top of exactly one root transaction -/
+def StackOk : List Bool → Prop
+  | [] => True
+  | [b] => b = false
+  | b :: b' :: rest => b = true ∧ StackOk (b' :: rest)
+
+/-- the invariant: a well-formed transaction stack, and with no transaction in progress the
+    session's connection sees exactly the committed rows -/
+def RInv (s : Sess) : Prop := StackOk (flags s) ∧ (s.txns = [] → s.rows = s.committed)
+
+theorem flags_of_shape {s s' : Sess} (h : shape s' = shape s) : flags s' = flags s := by
+  have : (shape s').map (fun x => x.2.1) = (shape s).map (fun x => x.2.1) := by rw [h]
+  simpa [shape, flags, List.map_map, Function.comp_def] using this
+
+theorem txns_nil_of_shape {s s' : Sess} (h : shape s' = shape s) : s'.txns = [] ↔ s.txns = [] := by
+  have : (shape s').length = (shape s).length := by rw [h]
+  simp only [shape, List.length_map] at this
+  constructor <;> intro e
+  · have : s.txns.length = 0 := by rw [← this, e]; rfl
+    exact List.eq_nil_of_length_eq_zero this
+  · have : s'.txns.length = 0 := by rw [this, e]; rfl
+    exact List.eq_nil_of_length_eq_zero this
+
+/-- committed rows and stack shape unchanged (rows may change: a flush) -/
+structure CFrame (s s' : Sess) : Prop where
+  committed : s'.committed = s.committed
+  shape : shape s' = shape s
+
+theorem CFrame.refl (s : Sess) : CFrame s s := ⟨rfl, rfl⟩
+theorem CFrame.trans {a b c : Sess} (h1 : CFrame a b) (h2 : CFrame b c) : CFrame a c :=
+  ⟨h2.committed.trans h1.committed, h2.shape.trans h1.shape⟩
+theorem Frame.toC {s s' : Sess} (h : Frame s s') : CFrame s s' := ⟨h.committed, h.shape⟩
+
+theorem cframe_rows (s : Sess) (r : Rows) (i m n : List Nat) :
+    CFrame s { s with rows := r, imap := i, marked := m, new := n } := ⟨rfl, rfl⟩
+
+theorem cframe_step (s : Sess) (r : Rows) (i m n : List Nat) (f : STx → STx) (g : Obj → Obj) (o : Nat)
+    (hf : ∀ t, (f t).h = t.h ∧ (f t).nested = t.nested ∧ (f t).saveRows = t.saveRows) :
+    CFrame s ((({ s with rows := r, imap := i, marked := m, new := n } : Sess).modTop f).setObj o g) :=
+  ((cframe_rows s r i m n).trans
+    (frame_modTop ({ s with rows := r, imap := i, marked := m, new := n } : Sess) f hf).toC).trans
+    (frame_setObj _ o g).toC
+
+theorem cframe_flushObj (s : Sess) (o : Nat) : CFrame s (s.flushObj o) := by
+  unfold Sess.flushObj
+  simp only []
+  split
+  · split
+    · exact cframe_step s _ _ _ _ _ _ o (fun t => ⟨rfl, rfl, rfl⟩)
+    · exact CFrame.refl s
+  · split
+    · exact cframe_step s _ _ _ _ _ _ o (fun t => ⟨rfl, rfl, rfl⟩)
+    · split
+      · split
+        · exact cframe_step s _ _ _ _ _ _ o (fun t => ⟨rfl, rfl, rfl⟩)
+        · exact CFrame.refl s
+      · exact CFrame.refl s
+
+theorem cframe_flushAll : ∀ (l : List Nat) (s : Sess), CFrame s (flushAll l s) := by
+  intro l
+  induction l with
+  | nil => intro s; exact CFrame.refl s
+  | cons o os ih => intro s; exact (cframe_flushObj s o).trans (ih _)
+
+theorem autobegin_spec (s : Sess) :
+    s.autobegin.txns ≠ [] ∧ s.autobegin.rows = s.rows ∧ s.autobegin.committed = s.committed ∧
+    (s.txns ≠ [] → s.autobegin = s) ∧ (s.txns = [] → flags s.autobegin = [false]) := by
+  unfold Sess.autobegin
+  cases h : s.txns with
+  | nil => simp [flags]
+  | cons t r => simp [h]
+
+theorem rinv_autobegin {s : Sess} (h : RInv s) : RInv s.autobegin := by
+  obtain ⟨a1, a2, a3, a4, a5⟩ := autobegin_spec s
+  refine ⟨?_, fun e => absurd e a1⟩
+  by_cases ht : s.txns = []
+  · rw [a5 ht]; rfl
+  · rw [a4 ht]; exact h.1
+
+/-- a step that keeps committed rows and stack shape and is only taken with a transaction open -/
+theorem rinv_cframe {s s' : Sess} (h : RInv s) (hf : CFrame s s') (hne : s.txns ≠ []) : RInv s' := by
+  refine ⟨by rw [flags_of_shape hf.shape]; exact h.1, fun e => ?_⟩
+  exact absurd ((txns_nil_of_shape hf.shape).1 e) hne
+
+theorem rinv_flush {s : Sess} (h : RInv s) : RInv s.flush := by
+  unfold Sess.flush
+  split
+  · have ha := rinv_autobegin h
+    exact rinv_cframe ha (cframe_flushAll _ _) (autobegin_spec s).1
+  · exact h
+
+theorem flush_txns_ne {s : Sess} (hne : s.txns ≠ []) : s.flush.txns ≠ [] := by
+  unfold Sess.flush
+  split
+  · intro e
+    have hf := cframe_flushAll (List.range s.autobegin.objs.length) s.autobegin
+    exact (autobegin_spec s).1 ((txns_nil_of_shape hf.shape).1 e)
+  · exact hne
+
+theorem rinv_load {s : Sess} (h : RInv s) (o : Nat) : RInv (s.load o).1 := by
+  unfold Sess.load
+  simp only []
+  have h1 := rinv_flush (rinv_autobegin h)
+  have hne := flush_txns_ne (autobegin_spec s).1
+  split
+  · exact rinv_cframe h1 (frame_setObj _ o _).toC hne
+  · exact h1
+
+theorem stackOk_tail {b : Bool} {l : List Bool} (h : StackOk (b :: l)) : StackOk l := by
+  cases l with
+  | nil => trivial
+  | cons b' r => exact h.2
+
+theorem stackOk_single {b : Bool} (h : StackOk [b]) : b = false := h
+
+theorem frame_foldl_setObj (g : Obj → Obj) : ∀ (l : List Nat) (s : Sess),
+    Frame s (l.foldl (fun s o => s.setObj o g) s) := by
+  intro l
+  induction l with
+  | nil => intro s; exact Frame.refl s
+  | cons o os ih => intro s; exact (frame_setObj s o g).trans (ih _)
+
+theorem frame_removeSnapshot (s : Sess) (t : STx) : Frame s (s.removeSnapshot t) := by
+  unfold Sess.removeSnapshot
+  split
+  · exact (frame_expireWhere _ _ _).trans (frame_foldl_setObj _ _ _)
+  · split
+    · exact frame_modTop s _ (fun p => ⟨rfl, rfl, rfl⟩)
+    · exact Frame.refl s
+
+/-- what ending the innermost transaction does to the invariant, given the state `s1` right
+    before the pop (same stack as `s`) and the rows/committed it leaves -/
+theorem rinv_pop {s1 : Sess} {t : STx} {rest : List STx} (ht : s1.txns = t :: rest)
+    (hs : StackOk (flags s1)) (hroot : t.nested = false → s1.rows = s1.committed) :
+    RInv s1.popTx ∧ s1.popTx.txns = rest ∧ s1.popTx.rows = s1.rows ∧
+    s1.popTx.committed = s1.committed := by
+  have hp : s1.popTx = { s1 with txns := rest, ended := s1.ended ++ [t.h] } := by
+    simp [Sess.popTx, ht]
+  rw [hp]
+  refine ⟨⟨?_, fun e => ?_⟩, rfl, rfl, rfl⟩
+  · have : flags s1 = t.nested :: rest.map (·.nested) := by simp [flags, ht]
+    rw [this] at hs
+    exact stackOk_tail hs
+  · have e' : rest = [] := e
+    have : flags s1 = [t.nested] := by simp [flags, ht, e']
+    rw [this] at hs
+    exact hroot (stackOk_single hs)
+
+theorem flush_shape {s : Sess} (hne : s.txns ≠ []) : shape s.flush = shape s ∧ s.flush.committed = s.committed := by
+  unfold Sess.flush
+  split
+  · have ha := (autobegin_spec s).2.2.2.1 hne
+    have hf := cframe_flushAll (List.range s.autobegin.objs.length) s.autobegin
+    rw [ha] at hf
+    rw [ha]
+    exact ⟨hf.shape, hf.committed⟩
+  · exact ⟨rfl, rfl⟩
+
+theorem txns_of_shape_cons {s s' : Sess} {t : STx} {rest : List STx} (h : shape s' = shape s)
+    (ht : s.txns = t :: rest) :
+    ∃ t' rest', s'.txns = t' :: rest' ∧ t'.nested = t.nested ∧ t'.h = t.h ∧ t'.saveRows = t.saveRows ∧
+      rest'.length = rest.length := by
+  cases hx : s'.txns with
+  | nil => simp [shape, hx, ht] at h
+  | cons t' rest' =>
+    simp only [shape, hx, ht, List.map_cons, List.cons.injEq, Prod.mk.injEq] at h
+    refine ⟨t', rest', rfl, h.1.2.1, h.1.1, h.1.2.2, ?_⟩
+    have := congrArg List.length h.2
+    simpa using this
+
+theorem commitTop_cons {s : Sess} {t : STx} {rest : List STx} (ht : s.flush.txns = t :: rest) :
+    s.commitTop =
+      ((if t.nested then s.flush else { s.flush with committed := s.flush.rows }).popTx).removeSnapshot t := by
+  unfold Sess.commitTop
+  simp only []
+  generalize s.flush = sf at ht
+  cases hx : sf.txns with
+  | nil => rw [hx] at ht; cases ht
+  | cons t' r' =>
+    rw [hx] at ht
+    cases ht
+    rfl
+
+theorem rinv_commitTop {s : Sess} (h : RInv s) (hne : s.txns ≠ []) :
+    RInv s.commitTop ∧ s.commitTop.txns.length + 1 = s.txns.length := by
+  obtain ⟨t, rest, ht⟩ : ∃ t rest, s.txns = t :: rest := by
+    cases hx : s.txns with
+    | nil => exact absurd hx hne
+    | cons t rest => exact ⟨t, rest, rfl⟩
+  obtain ⟨hsh, hcm⟩ := flush_shape hne
+  obtain ⟨t', rest', ht', hn', _, _, hlen⟩ := txns_of_shape_cons hsh ht
+  have hs1 : StackOk (flags s.flush) := by rw [flags_of_shape hsh]; exact h.1
+  rw [commitTop_cons ht']
+  -- the state right before the pop
+  let s2 : Sess := if t'.nested then s.flush else { s.flush with committed := s.flush.rows }
+  show RInv (s2.popTx.removeSnapshot t') ∧ (s2.popTx.removeSnapshot t').txns.length + 1 = s.txns.length
+  have hs2t : s2.txns = t' :: rest' := by
+    show (if t'.nested then s.flush else { s.flush with committed := s.flush.rows }).txns = _
+    split <;> exact ht'
+  have hs2f : StackOk (flags s2) := by
+    have : flags s2 = flags s.flush := by
+      show flags (if t'.nested then s.flush else { s.flush with committed := s.flush.rows }) = _
+      split <;> rfl
+    rw [this]; exact hs1
+  have hroot : t'.nested = false → s2.rows = s2.committed := by
+    intro e
+    show (if t'.nested then s.flush else { s.flush with committed := s.flush.rows }).rows
+       = (if t'.nested then s.flush else { s.flush with committed := s.flush.rows }).committed
+    simp [e]
+  obtain ⟨p1, p2, p3, p4⟩ := rinv_pop hs2t hs2f hroot
+  have hf := frame_removeSnapshot s2.popTx t'
+  refine ⟨⟨by rw [flags_of_shape hf.shape]; exact p1.1, fun e => ?_⟩, ?_⟩
+  · rw [hf.rows, hf.committed]
+    exact p1.2 ((txns_nil_of_shape hf.shape).1 e)
+  · have : (s2.popTx.removeSnapshot t').txns.length = s2.popTx.txns.length := by
+      have := congrArg List.length hf.shape
+      simpa [shape] using this
+    rw [this, p2, hlen, ht]; rfl
+
+theorem rinv_rollbackTop {s : Sess} (h : RInv s) (hne : s.txns ≠ []) :
+    RInv s.rollbackTop ∧ s.rollbackTop.txns.length + 1 = s.txns.length := by
+  obtain ⟨t, rest, ht⟩ : ∃ t rest, s.txns = t :: rest := by
+    cases hx : s.txns with
+    | nil => exact absurd hx hne
+    | cons t rest => exact ⟨t, rest, rfl⟩
+  rw [rollbackTop_cons ht]
+  let s1 : Sess := { s with rows := if t.nested then t.saveRows else s.committed }
+  have hf := frame_restoreSnapshot s1 t t.nested
+  obtain ⟨t', rest', ht', hn', _, _, hlen⟩ := txns_of_shape_cons hf.shape (s := s1) ht
+  have hs : StackOk (flags (s1.restoreSnapshot t t.nested)) := by
+    rw [flags_of_shape hf.shape]; exact h.1
+  have hroot : t'.nested = false →
+      (s1.restoreSnapshot t t.nested).rows = (s1.restoreSnapshot t t.nested).committed := by
+    intro e
+    rw [hf.rows, hf.committed]
+    show (if t.nested then t.saveRows else s.committed) = s.committed
+    rw [← hn', e]; rfl
+  obtain ⟨p1, p2, _, _⟩ := rinv_pop ht' hs hroot
+  exact ⟨p1, by rw [p2, hlen, ht]; rfl⟩
+
+theorem rinv_closeTop {s : Sess} (h : RInv s) (hne : s.txns ≠ []) :
+    RInv s.closeTop ∧ s.closeTop.txns.length + 1 = s.txns.length := by
+  obtain ⟨t, rest, ht⟩ : ∃ t rest, s.txns = t :: rest := by
+    cases hx : s.txns with
+    | nil => exact absurd hx hne
+    | cons t rest => exact ⟨t, rest, rfl⟩
+  have e : s.closeTop = ({ s with rows := if t.nested then t.saveRows else s.committed } : Sess).popTx := by
+    simp [Sess.closeTop, ht]
+  rw [e]
+  have hroot : t.nested = false →
+      ({ s with rows := if t.nested then t.saveRows else s.committed } : Sess).rows
+        = ({ s with rows := if t.nested then t.saveRows else s.committed } : Sess).committed := by
+    intro e; simp [e]
+  obtain ⟨p1, p2, _, _⟩ :=
+    rinv_pop (s1 := ({ s with rows := if t.nested then t.saveRows else s.committed } : Sess)) ht h.1 hroot
+  exact ⟨p1, by rw [p2, ht]; rfl⟩
+
+theorem rinv_repeat (f : Sess → Sess)
+    (hf : ∀ s, RInv s → s.txns ≠ [] → RInv (f s) ∧ (f s).txns.length + 1 = s.txns.length) :
+    ∀ (n : Nat) (s : Sess), RInv s → n ≤ s.txns.length →
+      RInv (repeatN n f s) ∧ (repeatN n f s).txns.length + n = s.txns.length := by
+  intro n
+  induction n with
+  | zero => intro s h _; exact ⟨h, rfl⟩
+  | succ n ih =>
+    intro s h hn
+    have hne : s.txns ≠ [] := by intro e; rw [e] at hn; simp at hn
+    obtain ⟨h1, h2⟩ := hf s h hne
+    obtain ⟨i1, i2⟩ := ih (f s) h1 (by omega)
+    simp only [repeatN]
+    exact ⟨i1, by omega⟩
+
+theorem depthOf_lt {s : Sess} {h d : Nat} (hd : s.depthOf h = some d) : d < s.txns.length := by
+  unfold Sess.depthOf at hd
+  exact (List.findIdx?_eq_some_iff_getElem.1 hd).1
+
+/-- **session_rows_invariant** (one step): every operation — the out-of-order handle
+    operations included — keeps the transaction stack well formed and, whenever no
+    transaction is left, the session's connection sees exactly the committed rows. -/
+theorem step_rinv {s : Sess} (h : RInv s) (op : SOp) : RInv (s.step op).1 := by
+  cases op with
+  | add pk v =>
+    have ha := rinv_autobegin h
+    exact rinv_cframe ha ⟨rfl, rfl⟩ (autobegin_spec s).1
+  | setV o v =>
+    simp only [Sess.step]
+    split
+    · exact rinv_cframe (rinv_autobegin h) (frame_setObj _ o _).toC (autobegin_spec s).1
+    · refine ⟨h.1, fun e => ?_⟩
+      exact h.2 e
+  | setPk o pk =>
+    simp only [Sess.step]
+    have key : RInv (if (s.obj o).persistent && !(s.obj o).idL then s.load o
+        else (if (s.obj o).attached then s.autobegin else s, SRes.ok)).1 := by
+      split
+      · exact rinv_load h o
+      · split
+        · exact rinv_autobegin h
+        · exact h
+    generalize (if (s.obj o).persistent && !(s.obj o).idL then s.load o
+        else (if (s.obj o).attached then s.autobegin else s, SRes.ok)) = x at key
+    obtain ⟨s1, r⟩ := x
+    cases r <;> first
+      | exact key
+      | exact ⟨key.1, fun e => key.2 e⟩
+  | delete o =>
+    exact rinv_cframe (rinv_autobegin h) ⟨rfl, rfl⟩ (autobegin_spec s).1
+  | flush => exact rinv_flush h
+  | load o =>
+    simp only [Sess.step]
+    split
+    · exact rinv_load h o
+    · exact h
+  | begin =>
+    simp only [Sess.step]
+    split
+    · exact rinv_autobegin h
+    · exact h
+  | beginNested =>
+    simp only [Sess.step]
+    have h1 := rinv_flush (rinv_autobegin h)
+    have hne := flush_txns_ne (autobegin_spec s).1
+    refine ⟨?_, fun e => by simp at e⟩
+    obtain ⟨t, rest, ht⟩ : ∃ t rest, s.autobegin.flush.txns = t :: rest := by
+      cases hx : s.autobegin.flush.txns with
+      | nil => exact absurd hx hne
+      | cons t rest => exact ⟨t, rest, rfl⟩
+    have hs := h1.1
+    simp only [flags, ht, List.map_cons] at hs ⊢
+    exact ⟨rfl, hs⟩
+  | commit =>
+    simp only [Sess.step, Sess.commit]
+    split
+    · have ha := rinv_autobegin h
+      obtain ⟨c1, _⟩ := rinv_commitTop ha (autobegin_spec s).1
+      exact ⟨c1.1, c1.2⟩
+    · exact (rinv_repeat Sess.commitTop (fun s hs hne => rinv_commitTop hs hne) _ s h (Nat.le_refl _)).1
+  | rollback =>
+    exact (rinv_repeat Sess.rollbackTop (fun s hs hne => rinv_rollbackTop hs hne) _ s h (Nat.le_refl _)).1
+  | close =>
+    simp only [Sess.step, Sess.close]
+    have hf := frame_foldl_setObj (fun x => x.detach false) ((s.imap ++ s.new).eraseDups) s
+    have h1 : RInv ({ (List.foldl (fun s o => s.setObj o fun x => x.detach false) s
+        ((s.imap ++ s.new).eraseDups)) with imap := [], new := [], marked := [] } : Sess) := by
+      refine ⟨?_, fun e => ?_⟩
+      · show StackOk (flags _)
+        have : flags ({ (List.foldl (fun s o => s.setObj o fun x => x.detach false) s
+            ((s.imap ++ s.new).eraseDups)) with imap := [], new := [], marked := [] } : Sess) = flags s :=
+          flags_of_shape hf.shape
+        rw [this]; exact h.1
+      · show (List.foldl _ s _).rows = (List.foldl _ s _).committed
+        rw [hf.rows, hf.committed]
+        exact h.2 ((txns_nil_of_shape hf.shape).1 e)
+    exact (rinv_repeat Sess.closeTop (fun s hs hne => rinv_closeTop hs hne) _ _ h1 (Nat.le_refl _)).1
+  | tCommit x =>
+    simp only [Sess.step, Sess.tCommit]
+    split
+    · rename_i d hd
+      exact (rinv_repeat Sess.commitTop (fun s hs hne => rinv_commitTop hs hne) _ s h (depthOf_lt hd)).1
+    · exact h
+  | tRollback x =>
+    simp only [Sess.step, Sess.tRollback]
+    split
+    · rename_i d hd
+      obtain ⟨r1, r2⟩ := rinv_repeat Sess.closeTop (fun s hs hne => rinv_closeTop hs hne) d s h
+        (Nat.le_of_lt (depthOf_lt hd))
+      have hne : (repeatN d Sess.closeTop s).txns ≠ [] := by
+        intro e
+        have := depthOf_lt hd
+        rw [e] at r2; simp at r2; omega
+      exact (rinv_rollbackTop r1 hne).1
+    · exact h
+
+/-- **session_rows_invariant**: for EVERY history -/
+theorem session_rows_invariant (eoc : Bool) (ops : List SOp) :
+    RInv ((Sess.init eoc).run ops) := by
+  have key : ∀ (ops : List SOp) (s : Sess), RInv s → RInv (s.run ops) := by
+    intro ops
+    induction ops with
+    | nil => intro s h; exact h
+    | cons op ops ih => intro s h; exact ih _ (step_rinv h op)
+  exact key ops _ ⟨trivial, fun _ => rfl⟩
+
+/-- after `Session.commit()` / `Session.rollback()` / `Session.close()` from any reachable
+    state no transaction is left and the session's connection sees the committed rows -/
+theorem session_end_states (eoc : Bool) (ops : List SOp) :
+    let s := (Sess.init eoc).run ops
+    (s.rollback.txns = [] ∧ s.rollback.rows = s.rollback.committed) ∧
+    (s.txns ≠ [] → s.commit.txns = [] ∧ s.commit.rows = s.commit.committed) := by
+  intro s
+  have h := session_rows_invariant eoc ops
+  refine ⟨?_, fun hne => ?_⟩
+  · obtain ⟨r1, r2⟩ := rinv_repeat Sess.rollbackTop (fun s hs hne => rinv_rollbackTop hs hne)
+      s.txns.length s h (Nat.le_refl _)
+    have : s.rollback.txns = [] := List.eq_nil_of_length_eq_zero (by
+      show (repeatN s.txns.length Sess.rollbackTop s).txns.length = 0
+      omega)
+    exact ⟨this, r1.2 this⟩
+  · obtain ⟨r1, r2⟩ := rinv_repeat Sess.commitTop (fun s hs hne => rinv_commitTop hs hne)
+      s.txns.length s h (Nat.le_refl _)
+    have e : s.commit = repeatN s.txns.length Sess.commitTop s := by
+      unfold Sess.commit
+      have : s.txns.isEmpty = false := by
+        cases hx : s.txns with
+        | nil => exact absurd hx hne
+        | cons _ _ => rfl
+      simp [this]
+    rw [e]
+    have : (repeatN s.txns.length Sess.commitTop s).txns = [] := List.eq_nil_of_length_eq_zero (by omega)
+    exact ⟨this, r1.2 this⟩
 
 /-! ## where the full statement fails (findings F20, F21, F23) -/
 
